@@ -73,6 +73,17 @@ CHECKS.update({
          "Whole sessions (open, operations, size-triggered and forced rotations, background flushes and compactions, close, reopen) run under strace with INV/ACK markers in the same log; every boundary between two file-system-mutating system calls of any thread is turned into a directory image (fidelity self-check: final replayed image == real directory) and every distinct image is recovered by a fresh process; Open must succeed and each key must read model(acked) or model(acked + in-flight op). Enumerates every crash point of the traced executions; sessions/schedules are sampled.",
          "kill -9 model (completed system calls retained, single write not torn); schedules are those that occurred under strace; other listing orders emulated for unlink runs only", "§2.2, §3 C02", "E2"),
 })
+CHECKS.update({
+ "C07": ("fault_enumeration", "reference-model monitor (appended sequence vs fresh Replay) + offline checkers over strace logs of WAL-only sessions: crash image at every mutating call -> Replay in a fresh process must give a prefix containing all acknowledged sync appends; fsync-ordering monitor over write/fsync events",
+         "(a) seeded append/rotate programs over limits {9..1MiB}, buffers and compressions are replayed by a fresh replayer; (b) WAL-only sessions run under strace with small writer buffers so that flushes cut records, every boundary between mutating system calls is materialised and replayed by a fresh process; (c) the same log is scanned for 'write reached the file and the file was fsynced before AppendSync returned'.",
+         "kill -9 model; nil and empty records are both length-0 payloads for the oracle", "§3 C07", "E1+E2"),
+ "C10": ("fault_enumeration", "nested crash-image enumeration: level-1 images from traced sessions, recovery of each traced again, level-2 (sampled level-3) image at every mutating call of Open incl. unlink-order permutations; oracle = read-all after the uninterrupted recovery",
+         "For sampled crash images of real sessions (per phase, incl. pending flagged compactions and non-empty WALs) the recovery itself runs under strace; after every mutating system call of that recovery (and for every subset of each listing-ordered unlink run) a fresh Open must succeed and read exactly what the uninterrupted recovery reads. Exhaustive over the crash points of the traced recoveries; level-1 images are sampled.",
+         "kill -9 model; only unlinks issued relative to a directory descriptor (os.RemoveAll) are permuted, program-ordered unlinks are not", "§2.2, §3 C10", "E2"),
+ "C13": ("fault_enumeration", "same engine as C02 with the asynchronous WAL: oracle = recovered content equals the reference map after some prefix p >= L of the invoked operations, L = operations acknowledged before the newest WAL file was created",
+         "Traced sessions with EnableAsyncWAL, including ones that log 6..25 MB of incompressible values so that the 4 MiB WAL buffer wraps and cuts records; every crash image is recovered by a fresh process; Open must succeed and the content must be a hole-free, order-preserving prefix that includes everything before the last rotation.",
+         "kill -9 model; the in-flight operation may be the last element of the prefix", "§3 C13", "E2"),
+})
 NOT_YET = {}
 props = [json.loads(l) for l in open(os.path.join(ROOT, "properties.jsonl"))]
 hooks_commits = []
